@@ -120,12 +120,13 @@ func (k *KerberosProxy) forward(realm string, data []byte) (resp []byte, err err
 	}
 
 	// merge the kdcs
-	kdcs := make([]Kdc, tcpCnt+udpCnt)
-	for i := range udpKdcs {
-		kdcs[i] = Kdc{Realm: realm, Host: udpKdcs[i], Proto: "udp"}
+	// (the maps are keyed by preference, starting at 1 for configured kdcs)
+	kdcs := make([]Kdc, 0, tcpCnt+udpCnt)
+	for _, host := range udpKdcs {
+		kdcs = append(kdcs, Kdc{Realm: realm, Host: host, Proto: "udp"})
 	}
-	for i := range tcpKdcs {
-		kdcs[i+udpCnt] = Kdc{Realm: realm, Host: tcpKdcs[i], Proto: "tcp"}
+	for _, host := range tcpKdcs {
+		kdcs = append(kdcs, Kdc{Realm: realm, Host: host, Proto: "tcp"})
 	}
 
 	replies := make(chan []byte, len(kdcs))
